@@ -1098,6 +1098,10 @@ func (c *Ctx) c09File(pm *pairModel) {
 		}
 		return types.Identical(t, mboxT)
 	}
+	// the in-memory bookkeeping of a loaded index, by the anchors' resolution (so that fields
+	// regrouped into a carrier record — idx.loaded, idx.messages — are still recognised)
+	fLoadedA := p.OptField("pkg/storage/file", "mbox", "indexLoaded")
+	fMsgsA := p.OptField("pkg/storage/file", "mbox", "messages")
 	mutates := func(f *ssa.Function) bool {
 		for g := range p.ReachModule(f) {
 			hit := false
@@ -1110,7 +1114,7 @@ func (c *Ctx) c09File(pm *pairModel) {
 				}
 				if st, ok := in.(*ssa.Store); ok {
 					if fa, ok := st.Addr.(*ssa.FieldAddr); ok {
-						if f := eng.FieldOfAddr(fa); f != nil && f.Pkg() != nil && f.Pkg().Path() == eng.Mod+"/pkg/storage/file" && f.Name() != "indexLoaded" && f.Name() != "messages" && f.Name() != "name" && f.Name() != "mailbox" {
+						if f := eng.FieldOfAddr(fa); f != nil && f.Pkg() != nil && f.Pkg().Path() == eng.Mod+"/pkg/storage/file" && f.Name() != "indexLoaded" && f.Name() != "messages" && f.Name() != "name" && f.Name() != "mailbox" && !eng.SameField(f, fLoadedA) && !eng.SameField(f, fMsgsA) {
 							hit = true // persisted message fields
 						}
 					}
